@@ -142,8 +142,8 @@ def _run_prim_once(case, res) -> CaseResult:
 
 CHECK = Check(
     id="C02",
-    parts=[Part("functional", run, strategy=strategy, budget={"quick": 1800, "thorough": 50000}),
-           Part("primitives", run_prim, strategy=prim_cases, budget={"quick": 1500, "thorough": 30000})],
+    parts=[Part("functional", run, strategy=strategy, budget={"quick": 4000, "thorough": 300000}),
+           Part("primitives", run_prim, strategy=prim_cases, budget={"quick": 3000, "thorough": 200000})],
     rule=("functional: same generator as C01 plus two upstream-gradient draws per data draw; every differentiable input's "
           "autograd gradient is fitted against the reference op's gradient for the same upstream (sum-reduced reference for "
           "mean-reduced losses). Non-trivial = at least one fit-able gradient and a batch dim > 1 or non-default "
